@@ -12,14 +12,16 @@ inductive V where
 deriving DecidableEq, Repr
 
 inductive Kind where
-  | long | dy | str
+  | long | dy | dc | str      -- dc = double with a COARSE tolerance (|a-b| < 2): a step of 1 is Eq-equal
 deriving DecidableEq, Repr
 
 def scale : Int := 1048576      -- 2^20
 def eps : Int := 65536          -- 2^-4 scaled
+def epsCoarse : Int := 2097152  -- 2 scaled
 
 def veq : Kind → V → V → Bool
   | .dy, .i a, .i b => decide ((a - b).natAbs < eps.natAbs)
+  | .dc, .i a, .i b => decide ((a - b).natAbs < epsCoarse.natAbs)
   | _, a, b => a == b
 
 def showV : V → String
@@ -45,10 +47,16 @@ def binop (k : Kind) (op : String) (a b : V) : Option V :=
     else if op == "mul" then (if (x * y) % scale == 0 then some (.i ((x * y) / scale)) else none)
     else if op == "div" then (if y == 0 then none else if (x * scale) % y == 0 then some (.i ((x * scale).tdiv y)) else none)
     else none
+  | .dc, .i x, .i y =>
+    if op == "add" then some (.i (x + y)) else if op == "sub" then some (.i (x - y))
+    else if op == "mul" then (if (x * y) % scale == 0 then some (.i ((x * y) / scale)) else none)
+    else if op == "div" then (if y == 0 then none else if (x * scale) % y == 0 then some (.i ((x * scale).tdiv y)) else none)
+    else none
   | _, _, _ => none
 
 def one : Kind → Int
   | .dy => scale
+  | .dc => scale
   | _ => 1
 
 def unop (k : Kind) (fn : String) (a : V) : Option V :=
@@ -78,7 +86,7 @@ def step (st : State) (args : List String) : State × String :=
   match args with
   | ["reset"] => ({}, "ok")
   | ["new", kind, v0] =>
-    let k? : Option Kind := if kind == "long" then some .long else if kind == "dy" then some .dy else if kind == "str" then some .str else none
+    let k? : Option Kind := if kind == "long" then some .long else if kind == "dy" then some .dy else if kind == "dc" then some .dc else if kind == "str" then some .str else none
     match k? with
     | none => (st, "bad-op")
     | some k => match parseV k v0 with
